@@ -37,12 +37,20 @@ import (
 // racySink is a deliberately unsynchronised sink: it is only ever used below zap's own
 // Lock or BufferedWriteSyncer mutex, so a missing lock in zap is a race report on it.
 type racySink struct {
-	n     int
-	last  []byte
-	syncs int
+	n         int
+	last      []byte
+	syncs     int
+	writes    int
+	failEvery int // > 0: every failEvery-th write reports an error (zap must report it and carry on)
 }
 
+var errRacySink = fmt.Errorf("c09 injected sink failure")
+
 func (s *racySink) Write(p []byte) (int, error) {
+	s.writes++
+	if s.failEvery > 0 && s.writes%s.failEvery == 0 {
+		return 0, errRacySink
+	}
 	s.n += len(p)
 	s.last = append(s.last[:0], p...)
 	return len(p), nil
@@ -184,9 +192,15 @@ func buildWorld(g *rng.R) *world {
 			w.desc = append(w.desc, "lock(multi)")
 			return l
 		}
-		l := zapcore.Lock(&racySink{})
+		rs := &racySink{}
+		if g.P(1, 4) {
+			rs.failEvery = g.Range(3, 40)
+			w.desc = append(w.desc, "lock(sometimes failing sink)")
+		} else {
+			w.desc = append(w.desc, "lock")
+		}
+		l := zapcore.Lock(rs)
 		w.locked = append(w.locked, l)
-		w.desc = append(w.desc, "lock")
 		return l
 	}
 	var leaf func() zapcore.Core
@@ -826,14 +840,36 @@ func program(r *ev.Run, i int) bool {
 	tracing := i%8 == 0
 	perturb(tracing)
 	if warmed {
-		for _, l := range w.loggers {
-			l.Info("warm-up")
-		}
-		for _, s := range w.sugars {
-			s.Infow("warm-up", "k", 1)
-		}
-		for _, h := range w.handlers {
-			slog.New(h).Info("warm-up")
+		// also the sequential warm-up runs under the watchdog (a lock leaked on an error path blocks
+		// the very next call)
+		warmDone := make(chan struct{})
+		go func() {
+			defer close(warmDone)
+			for _, l := range w.loggers {
+				l.Info("warm-up")
+			}
+			for _, s := range w.sugars {
+				s.Infow("warm-up", "k", 1)
+			}
+			for _, h := range w.handlers {
+				slog.New(h).Info("warm-up")
+			}
+		}()
+		select {
+		case <-warmDone:
+		case <-time.After(60 * time.Second):
+			d1 := mon.Stacks()
+			time.Sleep(1500 * time.Millisecond)
+			d2 := mon.Stacks()
+			if mon.Quiescent(d1, d2, "c09.program.func", "BufferedWriteSyncer") {
+				if len(d2) > 8000 {
+					d2 = d2[:8000]
+				}
+				r.Violate(ev.Violation{Case: id, Class: "deadlock", Msg: "a sequential warm-up log call never returned: the goroutine is blocked with an unchanged stack and nothing else is running; shared objects: " + strings.Join(w.desc, ","), Witness: d2})
+			} else {
+				r.Inconclusive(id + ": warm-up did not finish within the watchdog but goroutines are still moving")
+			}
+			return false
 		}
 	}
 	prevGlobals := zap.ReplaceGlobals(w.loggers[0])
